@@ -74,6 +74,7 @@ func H_C08_internal() {
 
 var c08Static = []string{
 	"[", "a[", "a..b", "a b", "'x", "`[1`", "\"\\q\"", "abs()", "abs(a, b)", "nosuch(a)", "sort_by(a, b)", "map(a, b)", "abs(&a)", "a[::0]", "a[1:2:0]",
+	"1a", "007", "42", "9_lives", "1", "a1 2b", "0x1", "1e3", "-1",
 	"@@", "a |", "| a", "{a}", "{a: }", "[a,]", "a.1", "foo[1", "foo.", "length(a b)", "&a", "a ? b", "#", "a == ", "let $x in a", "let x = a in b", "$x = a",
 }
 
@@ -110,6 +111,7 @@ func H_C08_static() {
 
 var c08Runtime = []string{
 	"abs(a)", "a + b", "a / b", "length(a)", "$nope", "a[*].[$nope]", "sort(a)", "pad_left(a, b)", "from_items(a)", "to_string(a)", "keys(a)", "join(a, b)",
+	"let $p = $missing in $p", "let $p = a, $q = $p in $q", "a[*].[let $p = $nope in $p]", "sort_by(a, &$nope)", "map(&[$nope], a)", "let $p = abs(a) in $p", "let $p = a in b[?$q]",
 	"sum(a)", "a.b", "a[0]", "let $x = a in $x", "max_by(a, &b)", "split(a, b, `-1`)", "avg(a)", "merge(a, b)", "`1` / `0`", "ceil(a)",
 }
 
@@ -136,4 +138,29 @@ func H_C08_runtime() {
 	vrtAssert(c >= 0, "exactly one category")
 	vrtAssert(c >= 3, "a compiled expression reported a static category (syntax, arity, unknown function)")
 	vrtReach("error")
+}
+
+// H_C08_bytes: for every short expression text, Search reports exactly what
+// Compile reports, for every document, without looking at the document.
+func H_C08_bytes() {
+	vrtSpec(1, 2, 1, "a,1a,1", smASCII, nfInt, 0)
+	maxLen := 2
+	if vrtTier() == 1 {
+		maxLen = 3
+	}
+	n := 1 + vrtChoose("len", maxLen)
+	expr := vrtStrN("e", n, smASCII)
+	doc := vrtDoc("d", 1, uJSON|uInt|uForeignPtr, uScalar)
+	_, cerr := Compile(expr)
+	r, serr := Search(expr, doc)
+	if cerr != nil {
+		vrtAssert(serr != nil && r == nil, "Search accepts an expression Compile rejects")
+		if serr != nil {
+			vrtAssert(classOf(serr) == classOf(cerr), "Search and Compile report different categories for a static fault")
+		}
+		vrtAssert(vrtUntouched(doc), "the data was inspected although the expression is statically invalid")
+	} else if serr != nil {
+		c := classOf(serr)
+		vrtAssert(c >= 3, "Search reports a static category for an expression that compiles")
+	}
 }
